@@ -62,7 +62,10 @@ AllPerturb == << Pt("y", 0, "+1"), Pt("y", 1, "0"), Pt("y", 2, "other"), Pt("y",
                  Pt("swap", 0, ""), Pt("swap", 1, ""), Pt("drop", 0, ""), Pt("dup", 0, ""), Pt("label", 0, ""),
                  Pt("lenL", 0, "short"), Pt("lenL", 0, "long"), Pt("lenLR", 0, "short"), Pt("lenLR", 0, "long"), Pt("lenLR", 0, "empty"), Pt("lenR", 0, ""),
                  Pt("lenC", 0, ""), Pt("lenY", 0, ""), Pt("lenZ", 0, ""), Pt("zero", 0, ""), Pt("splice", 0, "ipa"), Pt("splice", 0, "D"),
-                 Pt("fake", 0, "zero"), Pt("fake", 1, "zero"), Pt("fake", 0, "other"), Pt("fake", 1, "atz") >>
+                 Pt("fake", 0, "zero"), Pt("fake", 1, "zero"), Pt("fake", 0, "other"), Pt("fake", 1, "atz"),
+                 \* proofs forged by an adversarial prover for a statement with one false claimed value (see forgeProof in the driver)
+                 Pt("forge", 0, "dupy"), Pt("forge", 0, "dupy_first"), Pt("forge", 0, "drop0"), Pt("forge", 0, "droplast"), Pt("forge", 0, "dropz") >>
+Forges == << Pt("forge", 0, "dupy"), Pt("forge", 0, "dupy_first"), Pt("forge", 0, "drop0"), Pt("forge", 0, "droplast"), Pt("forge", 0, "dropz") >>
 
 Labels == <<"multiproof", "test", "", "vt", "a-longer-protocol-label-0123456789">>
 MpShapes ==
@@ -85,7 +88,7 @@ PerturbShapes ==
   \cup {<<zs, "zeros", FALSE, "norm">> : zs \in { <<3, 77>>, <<10, 10, 200>>, <<3, 77, 9, 200, 3>> }}
   \cup {<<Pattern(n, "same"), "pair", TRUE, "norm">> : n \in (IF Quick THEN {256} ELSE {255, 256, 512})}
   \cup {<<Pattern(259, "same+"), "pair", TRUE, "norm">>}
-ManyPerturb == << Pt("y", 0, "+1"), Pt("fake", 0, "other"), Pt("C", 1, "id") >>       \* the long shapes get a short list
+ManyPerturb == << Pt("y", 0, "+1"), Pt("fake", 0, "other"), Pt("C", 1, "id"), Pt("forge", 0, "dropz"), Pt("forge", 0, "dupy") >>       \* the long shapes get a short list
 ArrivalShapes == {<<Pattern(n, p), "cycle", sh, "mixed">> : n \in {NCpu - 1, NCpu + 1, 2 * NCpu + 3}, p \in {"two", "blocks"}, sh \in {FALSE}}
 MpSeq == SetToSeq(IF Part = "mp_arrival" THEN ArrivalShapes ELSE IF Part = "mp_cpu" THEN CpuShapes ELSE IF Part = "mp_perturb" THEN PerturbShapes ELSE MpShapes)
 MpProgs == [k \in 1 .. Len(MpSeq) |->
@@ -94,7 +97,7 @@ MpProgs == [k \in 1 .. Len(MpSeq) |->
                arrival |-> IF Part = "mp_arrival" THEN <<"rev", "rot", "evenodd">>[(k % 3) + 1] ELSE "",
                perturb |-> IF Part # "mp_perturb" THEN <<>>
                            ELSE IF Len(MpSeq[k][1]) >= 200 THEN ManyPerturb
-                           ELSE IF Quick THEN [j \in 1 .. 8 |-> AllPerturb[((k * 8 + j + Seed) % Len(AllPerturb)) + 1]]
+                           ELSE IF Quick THEN [j \in 1 .. 8 |-> AllPerturb[((k * 8 + j + Seed) % Len(AllPerturb)) + 1]] \o (IF MpSeq[k][3] THEN Forges ELSE <<>>)
                            ELSE AllPerturb]]
 
 Points == {"0", "1", "127", "128", "254", "255", "256", "257", "300", "65536", "2^64", "h", "r-2", "r-1", "rnd1", "rnd2"}
@@ -104,7 +107,9 @@ IpaProgs == {[kind |-> "ipa", label |-> "p", poly |-> pl, point |-> pt, results 
                pt \in (IF Part = "ipa_few" THEN {"0", "255", "256", "r-1", "rnd1"} ELSE Points)}
 
 ByteCl == {"valid", "short1", "short32", "empty", "trail1", "trail32", "scalar_r", "scalar_r+1", "scalar_r-1", "scalar_max",
-           "pt_xplusp", "pt_nonsubgroup", "pt_offcurve", "pt_other", "bitflip", "random"}
+           "pt_xplusp", "pt_nonsubgroup", "pt_offcurve", "pt_other", "bitflip", "random",
+           \* several invalid point fields at once (must not cancel out in a batched validation)
+           "pt_nonsubgroup2", "pt_nonsubgroup4", "pt_nonsubgroupall", "pt_offcurve2", "pt_xplusp2", "pt_nonsub_same2"}
 ReaderCl == {"whole", "byte1", "field32", "chunk7", "chunk33", "dataeof", "dataeof32", "dataeof1"}
 ReadProgs == {[kind |-> "read", src |-> s, bytes |-> b, reader |-> r, pos |-> p] :
                 s \in {"mp", "ipa"}, b \in ByteCl, r \in (IF Quick THEN {"whole", "byte1", "chunk7", "dataeof", "dataeof32"} ELSE ReaderCl),
